@@ -911,6 +911,32 @@ def check_content(case):
                 if acontent2 != acontent:
                     raise Violation("loading the same archive file twice gives different content",
                                     first=acontent, second=acontent2)
+                fsize = os.path.getsize(fpath)
+                if case.get("truncate") and fsize > 2:
+                    # an extra-huge file: only its tail is read (the size limit is lowered for the duration,
+                    # as the repository's own test does); what is read is still filtered
+                    from insights.core import spec_factory as _sf
+                    old_max = _sf.MAX_CONTENT_SIZE
+                    _sf.MAX_CONTENT_SIZE = max(1, fsize - 1 - (case["truncate"] % (fsize - 1)))
+                    try:
+                        tcontent = list(avalue.ds(abroker).content)
+                    except ContentException:
+                        tcontent = []
+                    finally:
+                        _sf.MAX_CONTENT_SIZE = old_max
+                    fset = sorted(ab)
+                    pos = 0
+                    for k_ in tcontent:
+                        while pos < len(orig) and orig[pos] != k_:
+                            pos += 1
+                        if pos == len(orig):
+                            raise Violation("archive post-filter (truncated read): line %r is not an original line "
+                                            "(in order)" % (k_,), original=orig, output=tcontent)
+                        pos += 1
+                        if k_ and not any(f in k_ for f in fset):
+                            raise Violation("archive post-filter (truncated read of an extra-huge file): kept line %r "
+                                            "contains none of the filters %r" % (k_, fset), original=orig, output=tcontent)
+                    labels.add("archive-truncated-read")
             else:
                 labels.add("no-filter-in-archive")
 
@@ -1025,7 +1051,8 @@ def _content_case(draw, tier):
     return {"lines": lines, "filters": filt,
             "kind": draw(st.sampled_from(["file", "file", "first_file", "glob", "first_of", "cmd"])),
             "eof_nl": draw(st.booleans()), "prelook": draw(st.booleans()),
-            "interleave": draw(st.booleans()), "one_by_one": draw(st.booleans())}
+            "interleave": draw(st.booleans()), "one_by_one": draw(st.booleans()),
+            "truncate": draw(st.sampled_from([0, 0, 1, 7, 20, 45, 90, 200]))}
 
 
 def strat_content(tier):
